@@ -207,7 +207,18 @@ def check_nocache(repo, res, idview, stats):
     # _val is a property that calls self.func
     ids = stats.classes["IDStat"]
     val = ids.methods.get("_val")
-    ok = val is not None and val.is_property() and any(isinstance(c, ast.Call) and isinstance(c.func, ast.Attribute) and c.func.attr == "func" for c in ast.walk(val.node))
+    def calls_func(fn, depth=0):
+        """fn evaluates self.func(...), directly or through an uncached private method of the class."""
+        for c in ast.walk(fn.node):
+            if isinstance(c, ast.Call) and isinstance(c.func, ast.Attribute) and isinstance(c.func.value, ast.Name) and c.func.value.id == fn.params[0]:
+                if c.func.attr == "func":
+                    return True
+                h = ids.methods.get(c.func.attr)
+                if h is not None and h is not fn and depth < 2 and not h.is_property() and not [d for d in h.decorators() if d.split("(")[0] in CACHE_DECOS] and calls_func(h, depth + 1):
+                    return True
+        return False
+
+    ok = val is not None and val.is_property() and calls_func(val)
     res.inst("V-NOCACHE", "IDStat._val is a property evaluating self.func(...) on each access", ok)
     if not ok:
         res.add(mk_finding(PROP, "V-NOCACHE", val, val.node if val else ids.node, "IDStat._val is not a plain property that calls the stat function on each access", role="_val"))
@@ -471,22 +482,61 @@ def module_operator_table(repo, m):
                 tgt = repo.resolve_in_module(mi, v.id)
                 path = getattr(tgt, "path", "")
                 out[k.value] = path.split(".")[-1] if path.startswith("operator.") or path.startswith("_operator.") else v.id
+                if k.value == "between" and hasattr(tgt, "node"):
+                    # a module-level helper `def _between(value, bounds): return bounds[0] <= value <= bounds[1]`
+                    body = [b for b in tgt.node.body if not (isinstance(b, ast.Expr) and isinstance(b.value, ast.Constant))]
+                    if len(body) == 1 and isinstance(body[0], ast.Return) and body[0].value is not None:
+                        out[k.value] = "between-lambda" if _between_shape([x.arg for x in tgt.node.args.args], body[0].value) else "other-lambda"
             elif isinstance(v, ast.Attribute) and isinstance(v.value, ast.Name) and v.value.id == "operator":
                 out[k.value] = v.attr
             elif isinstance(v, ast.Lambda) and k.value == "between":
-                a = [x.arg for x in v.args.args]
-                b = v.body
-                good = False
-                if len(a) == 2 and isinstance(b, ast.Compare) and len(b.ops) == 2 and all(isinstance(o, ast.LtE) for o in b.ops):
-                    lo, mid, hi = b.left, b.comparators[0], b.comparators[1]
-                    def idx(e, kk):
-                        return isinstance(e, ast.Subscript) and isinstance(e.value, ast.Name) and e.value.id == a[1] and isinstance(e.slice, ast.Constant) and e.slice.value == kk
-                    good = idx(lo, 0) and isinstance(mid, ast.Name) and mid.id == a[0] and idx(hi, 1)
-                out[k.value] = "between-lambda" if good else "other-lambda"
+                out[k.value] = "between-lambda" if _between_shape([x.arg for x in v.args.args], v.body) else "other-lambda"
             else:
                 out[k.value] = "?"
         return out
     return None
+
+
+def _between_shape(a, b):
+    """b is `bounds[0] <= value <= bounds[1]` for the parameter list a = [value, bounds]."""
+    if len(a) == 2 and isinstance(b, ast.Compare) and len(b.ops) == 2 and all(isinstance(o, ast.LtE) for o in b.ops):
+        lo, mid, hi = b.left, b.comparators[0], b.comparators[1]
+
+        def idx(e, kk):
+            return isinstance(e, ast.Subscript) and isinstance(e.value, ast.Name) and e.value.id == a[1] and isinstance(e.slice, ast.Constant) and e.slice.value == kk
+
+        return idx(lo, 0) and isinstance(mid, ast.Name) and mid.id == a[0] and idx(hi, 1)
+    return False
+
+
+def _pred_from_mode(m, pred):
+    defs = [s for s in own_statements(m.node) if isinstance(s, ast.Assign) and any(isinstance(t, ast.Name) and t.id == pred for t in s.targets)]
+    return bool(defs) and all(any(isinstance(x, ast.Name) and x.id == "mode" for x in ast.walk(d.value)) for d in defs)
+
+
+def loop_call_ok(m, selfn, valp):
+    """for idx in self: value = values[idx]; ...; if <pred>(value, val): bunch.append(idx)"""
+    for st in own_statements(m.node):
+        if not (isinstance(st, ast.For) and isinstance(st.iter, ast.Name) and st.iter.id == selfn and isinstance(st.target, ast.Name)):
+            continue
+        var = st.target.id
+        aliases = set()
+        for s2 in own_statements(st):
+            if isinstance(s2, ast.Assign) and isinstance(s2.value, ast.Subscript) and isinstance(s2.value.slice, ast.Name) and s2.value.slice.id == var:
+                aliases |= {t.id for t in s2.targets if isinstance(t, ast.Name)}
+        for s2 in own_statements(st):
+            if not isinstance(s2, ast.If):
+                continue
+            tests = s2.test.values if isinstance(s2.test, ast.BoolOp) and isinstance(s2.test.op, ast.And) else [s2.test]
+            for c in tests:
+                if isinstance(c, ast.Call) and isinstance(c.func, ast.Name) and len(c.args) == 2:
+                    a0, a1 = c.args
+                    is_value = (isinstance(a0, ast.Subscript) and isinstance(a0.slice, ast.Name) and a0.slice.id == var) or (isinstance(a0, ast.Name) and a0.id in aliases)
+                    if is_value and isinstance(a1, ast.Name) and a1.id == valp and _pred_from_mode(m, c.func.id):
+                        appends = [x for b in s2.body for x in ast.walk(b) if isinstance(x, ast.Call) and isinstance(x.func, ast.Attribute) and x.func.attr == "append" and x.args and isinstance(x.args[0], ast.Name) and x.args[0].id == var]
+                        if appends:
+                            return True
+    return False
 
 
 def table_call_ok(m, selfn, valp):
@@ -505,11 +555,9 @@ def table_call_ok(m, selfn, valp):
                 if isinstance(c, ast.Call) and isinstance(c.func, ast.Name) and len(c.args) == 2:
                     a0, a1 = c.args
                     if isinstance(a0, ast.Subscript) and isinstance(a0.slice, ast.Name) and a0.slice.id == var and isinstance(a1, ast.Name) and a1.id == valp:
-                        pred = c.func.id
-                        defs = [s for s in own_statements(m.node) if isinstance(s, ast.Assign) and any(isinstance(t, ast.Name) and t.id == pred for t in s.targets)]
-                        if defs and all(any(isinstance(x, ast.Name) and x.id == "mode" for x in ast.walk(d.value)) for d in defs):
+                        if _pred_from_mode(m, c.func.id):
                             return True
-    return False
+    return loop_call_ok(m, selfn, valp)
 
 
 def find_bunch_comp(stmts):
